@@ -323,6 +323,8 @@ class Evaluator:
                 return v[1][e[1]]
             if v[0] == "closure":
                 return v[2][e[1]]
+            if e[1] == 0 and v[0] == "proj" and v[2][0] == "downcast" and len(v[2]) > 2 and v[2][2] in ("Some", "Ok"):
+                return ("unwrap", v[1])    # the payload of a value known to be Some / Ok: one spelling for `match`, `let-else`, `?` and unwrap()
             if v[0] in ("sym", "proj", "app", "unwrap", "item"):
                 return ("proj", v, e)
             raise Unsupported("field projection on %r" % (v[0],))
@@ -345,6 +347,8 @@ class Evaluator:
                 return mk_int(v[1][e[1]], "u8")
             if v[0] == "array":
                 return v[1][e[1]] if not e[2] else v[1][len(v[1]) - e[1]]
+            if not e[2]:
+                return index_term(v, mk_int(e[1], "usize"))     # `[a, ..]` patterns read element k like `s[k]`
             return ("proj", v, e)
         if k == "subslice":
             if v[0] == "bytes":
@@ -447,6 +451,10 @@ class Evaluator:
         if "promoted" in c:
             return self.eval_promoted(st, act, c["promoted"], c.get("promoted_of"))
         v = c.get("val")
+        if c.get("unevaluated_path") and ty["k"] == "adt" and (v is None or v["k"] in ("indirect", "ptr")):
+            r = self.eval_const_item(c["unevaluated_path"])
+            if r is not None:
+                return r
         if v is None:
             return ("sym", "const:" + c.get("unevaluated", ty["s"]), ty["s"])
         k = v["k"]
@@ -508,6 +516,25 @@ class Evaluator:
                 return ("bytes", bytes(to["bytes"])[to.get("offset", 0):][:ty["len"]])
             return ("sym", "constval:%s" % ty["s"], ty["s"])
         return ("sym", "const?:" + ty["s"], ty["s"])
+
+    def eval_const_item(self, path):
+        """value of a named constant, by evaluating its initialiser (single path, no parameters)"""
+        cache = self.__dict__.setdefault("_const_cache", {})
+        if path in cache:
+            return cache[path]
+        fn = self.prog.fns.get(path)
+        r = None
+        if fn is not None and fn["body"]["arg_count"] == 0:
+            sub = Evaluator(self.prog, self.models, self.log_on, {}, self.no_inline)
+            sub.fnrefs = self.fnrefs
+            try:
+                paths = [p for p in sub.run_body(fn, fn["body"], [], title="const") if p.kind == "return"]
+                if len(paths) == 1:
+                    r = sub.detach(paths[0].state, paths[0].value)
+            except Unsupported:
+                r = None
+        cache[path] = r
+        return r
 
     def eval_promoted(self, st, act, idx, of):
         fn = act.fn
@@ -595,6 +622,10 @@ class Evaluator:
             return ("tuple", (("app", base, (a, b)), ("app", base + "Ovf", (a, b))))
         if base in ("Eq", "Ne") and a == b:
             return TRUE if base == "Eq" else FALSE
+        if base in ("Eq", "Ne") and a[0] != "int" and b[0] != "int" and repr(a) > repr(b):
+            a, b = b, a        # one spelling for `x == y` and `y == x`
+        if base in ("Eq", "Ne") and a[0] == "int" and b[0] != "int":
+            a, b = b, a
         return ("app", base, (a, b))
 
     def cast(self, st, kind, x, ty):
@@ -1153,6 +1184,11 @@ class Evaluator:
                 st.emit(("panic", name, tuple(args), w))
                 return [Path("panic", None, st, name)]
             self.stats["inlined"].add(name)
+            if target_fn.get("kind") == "Closure" and len(args) == 2 and target_fn["body"]["arg_count"] != 2 or \
+                    (target_fn.get("kind") == "Closure" and len(args) == 2 and args[1][0] in ("tuple", "unit") and fnj.get("item") in ("call", "call_mut", "call_once")):
+                # Fn*::call(closure, (a, b, ..)): the closure body takes the tuple's fields as separate arguments
+                spread = list(args[1][1]) if args[1][0] == "tuple" else []
+                args = [args[0]] + spread
             self.push(st, target_fn, target_fn["body"], args, dest, target, targs=ci.targs())
             return [st]
         # 3. models
@@ -1204,6 +1240,11 @@ class Evaluator:
                 if not ok:
                     continue
                 a2 = s2.stack[-1]
+                if callable(val):
+                    # a branch value that has side effects (a closure run only on this branch)
+                    val = val(CallInfo(self, s2, a2, ci.fnj, ci.name, ci.args, ci.dest, ci.target, ci.w))
+                    if val is None:
+                        raise Unsupported("closure in %s could not be evaluated on a branch" % ci.name)
                 if isinstance(val, tuple) and val and val[0] == "panic!":
                     s2.emit(("panic", val[1], (), ci.w))
                     out.append(Path("panic", None, s2, val[1]))
@@ -1335,14 +1376,43 @@ def term_type(t):
         return t[1].split(":", 1)[1]
     if t[0] == "app" and t[1] == "to_vec":
         return "alloc::vec::Vec<u8>"
+    if t[0] == "app" and t[1] in ("captures", "group"):
+        return "core::option::Option<regex::%s>" % t[1]
+    if t[0] == "app" and t[1] in ("Add", "Sub", "Mul", "Div", "Rem", "BitAnd", "BitOr", "BitXor", "Shl", "Shr", "wrapping_add", "wrapping_sub") and len(t[2]) == 2:
+        return term_type(t[2][0]) or (term_type(t[2][1]) if t[1] not in ("Shl", "Shr") else None)
     if t[0] == "unwrap" and t[1][0] == "app" and t[1][1].startswith("from_str_radix:"):
         return t[1][1].split(":", 1)[1]
-    if t[0] == "item" and t[1][0] == "iter" and t[1][1] == "chunks":
+    if t[0] == "unwrap":
+        inner = term_type(t[1])
+        if inner and (inner.startswith("core::option::Option<") or inner.startswith("core::result::Result<")):
+            return first_generic_arg(inner)
+        return None
+    if t[0] == "item" and t[1][0] == "iter" and t[1][1] in ("chunks", "chunks_exact"):
         return "&[u8]"
     if t[0] == "item" and t[1][0] == "adt" and t[1][1].endswith("ops::range::Range") and len(t[1][4]) == 2:
         return term_type(t[1][4][1]) or term_type(t[1][4][0])
     if t[0] == "unwrap":
         return None
+    return None
+
+
+def first_generic_arg(tys):
+    """`Result<Option<A, B>, E>` -> `Option<A, B>`"""
+    i = tys.find("<")
+    if i < 0:
+        return None
+    depth = 0
+    start = i + 1
+    for j in range(i, len(tys)):
+        c = tys[j]
+        if c in "<([":
+            depth += 1
+        elif c in ">)]":
+            depth -= 1
+            if depth == 0:
+                return tys[start:j].strip()
+        elif c == "," and depth == 1:
+            return tys[start:j].strip()
     return None
 
 
